@@ -698,6 +698,8 @@ def native_call(interp, f, args, kwargs):
         order = sorted(range(len(lst)), key=lambda i: keys[i], reverse=bool(kwargs.get("reverse", False)))    # comparisons of symbolic keys fork
         lst[:] = [lst[i] for i in order]
         return None
+    if type(getattr(f, "__self__", None)).__module__.startswith("contracts."):
+        return f(*args, **kwargs)           # a method of an abstraction object supplied by a contract (e.g. a ledger pool)
     nh = getattr(interp, "native_hooks", None)
     if nh:
         h = nh.get(id(f))
